@@ -474,4 +474,10 @@ def check(ctx):
     ctx.floor('load sites', r['loads'], 1)
     ctx.floor('write / publish sites', r['writes'], 1)
     ctx.floor('install provenances', r['installs'], 2)
+    # Round 7: "packs / unpacks according to its own declaration" while several processes and classes
+    # define same-named classes: the module a class installs is shared through sys.modules, so the
+    # generated functions depend on nothing but their own text and arguments (C15-E)
+    from .c15 import check_templates_closed, check_module_namespace
+    check_templates_closed(ctx, ctx.repo)
+    check_module_namespace(ctx, model)
     ctx.trust(*ASSUMPTIONS)
